@@ -137,6 +137,19 @@ func genC13(rt *rapid.T, tier string) any {
 				x.Parent = k
 			}
 		}
+		if rapid.IntRange(0, 7).Draw(rt, "tiproot") == 0 {
+			// the tree written from one of its tips, "(...)name;": the root node has one neighbour and a taxon name
+			var leaves []*RNode
+			for _, x := range m.all() {
+				if _, err := strconv.ParseFloat(x.Label, 64); x.IsTip() && x.Parent != nil && err != nil {
+					leaves = append(leaves, x)
+				}
+			}
+			if len(leaves) > 0 {
+				m.Label = ""
+				m = RerootAt(leaves[r.Intn(len(leaves))])
+			}
+		}
 		text := m.Newick()
 		if rapid.IntRange(0, 5).Draw(rt, "sciupper") == 0 {
 			// branch lengths as Java programs write them: scientific notation with an upper-case exponent
@@ -458,6 +471,13 @@ func execC13(t *testing.T, cc any, o *Outcome) {
 		fname := map[int]string{utils.FORMAT_NEXUS: "nexus", utils.FORMAT_PHYLOXML: "phyloxml"}[format]
 		back, ok := readMulti(t, o, "multi/"+fname, doc, format, c)
 		hctx := fmt.Sprintf("%s bufsz=%d chunks=%v\n  source %v\n  document %q", what, c.BufSz, c.Chunks, c.Trees, doc)
+		// violations of a translate-table hop on a list that contains a tree written from one of its tips are a class of their own
+		// (recorded finding: the translated name of the root tip is a number after the last ')', which is read as a support)
+		vk := kind
+		if kind == "nexus+t" && anyTipRooted(cur) {
+			vk = kind + ":tip-rooted"
+			o.Probe("translate-table-with-a-tip-rooted-tree")
+		}
 		if !ok {
 			return
 		}
@@ -472,7 +492,7 @@ func execC13(t *testing.T, cc any, o *Outcome) {
 			}
 		}
 		if len(back) != len(expect) {
-			o.Fail("roundtrip-count:"+kind, "%d records read back for %d trees written (records: %s)\n%s", len(back), len(expect), showRecs(back), hctx)
+			o.Fail("roundtrip-count:"+vk, "%d records read back for %d trees written (records: %s)\n%s", len(back), len(expect), showRecs(back), hctx)
 			return
 		}
 		var next []string
@@ -481,16 +501,16 @@ func execC13(t *testing.T, cc any, o *Outcome) {
 				o.Fail("multi:ids:"+fname, "record %d carries id %d\n%s", i, r.id, hctx)
 			}
 			if r.err {
-				o.Fail("roundtrip-error:"+kind, "tree %d cannot be read back\n%s", i, hctx)
+				o.Fail("roundtrip-error:"+vk, "tree %d cannot be read back\n%s", i, hctx)
 				return
 			}
 			if g := canonTree(r.text); g != expect[i] {
-				o.Fail("roundtrip:"+kind, "tree %d differs from its source after %v\n  want %s\n  got  %s\n%s", i, c.Chain[:hop+1], expect[i], g, hctx)
+				o.Fail("roundtrip:"+vk, "tree %d differs from its source after %v\n  want %s\n  got  %s\n%s", i, c.Chain[:hop+1], expect[i], g, hctx)
 			}
 			next = append(next, r.text)
 		}
 		if c.BufSz == 16 && kind != "treenexus" && len(o.Viols) == 0 && !c.Hetero {
-			checkReformatCLI(t, o, c, kind, fname, cur, expect, doc)
+			checkReformatCLI(t, o, c, kind, vk, fname, cur, expect, doc)
 		}
 		single, failed := readSingle(o, "single/"+fname, doc, format, c)
 		if failed || single != back[0].text {
@@ -621,7 +641,23 @@ func showRecs(recs []mrec) string {
 
 // checkReformatCLI performs the same hop through the commands: `gotree reformat nexus|phyloxml` writes the document,
 // `gotree reformat newick -f <format>` reads a document back; both must preserve every tree.
-func checkReformatCLI(t *testing.T, o *Outcome, c *C13Case, kind, fname string, cur, expect []string, libdoc string) {
+// anyTipRooted: some tree of the list has a root with exactly one child and a name that is not a number.
+func anyTipRooted(trees []string) bool {
+	for _, t := range trees {
+		if m, err := ParseRef(t); err == nil && len(m.Children) == 1 && m.Label != "" && !m.Children[0].IsTip() {
+			if _, nerr := strconv.ParseFloat(m.Label, 64); nerr != nil {
+				return true
+			}
+		}
+	}
+	return false
+}
+
+func checkReformatCLI(t *testing.T, o *Outcome, c *C13Case, kind, vk, fname string, cur, expect []string, libdoc string) {
+	rk := fname // class suffix of the read-back checks
+	if vk != kind {
+		rk = fname + ":tip-rooted+t"
+	}
 	o.Probe("cli:reformat:" + kind)
 	files := map[string]string{"in.nw": strings.Join(cur, "\n") + "\n", "lib.doc": libdoc}
 	args := []string{"reformat", fname, "-i", "@in.nw", "--seed", "1", "-o", "@OUT"}
@@ -643,12 +679,12 @@ func checkReformatCLI(t *testing.T, o *Outcome, c *C13Case, kind, fname string, 
 		return
 	}
 	if len(back) != len(expect) {
-		o.Fail("cli:reformat:roundtrip-count:"+kind, "%d trees read back from the document the command wrote for %d trees\n%s\n  document %q", len(back), len(expect), ctx, w.outs["OUT"])
+		o.Fail("cli:reformat:roundtrip-count:"+vk, "%d trees read back from the document the command wrote for %d trees\n%s\n  document %q", len(back), len(expect), ctx, w.outs["OUT"])
 		return
 	}
 	for i, r := range back {
 		if r.err || canonTree(r.text) != expect[i] {
-			o.Fail("cli:reformat:roundtrip:"+kind, "tree %d differs from its source after the command\n  want %s\n  got  %s (error %v)\n%s\n  document %q", i, expect[i], canonTree(r.text), r.err, ctx, w.outs["OUT"])
+			o.Fail("cli:reformat:roundtrip:"+vk, "tree %d differs from its source after the command\n  want %s\n  got  %s (error %v)\n%s\n  document %q", i, expect[i], canonTree(r.text), r.err, ctx, w.outs["OUT"])
 			return
 		}
 	}
@@ -656,7 +692,7 @@ func checkReformatCLI(t *testing.T, o *Outcome, c *C13Case, kind, fname string, 
 	rargs := []string{"reformat", "newick", "-i", "@lib.doc", "-f", fname, "--seed", "1", "-o", "@OUT"}
 	rd := runCLI(t, files, rargs, false, 1, c.Sched)
 	if rd.status != "ok" {
-		o.Fail("cli:reformat:read-failed:"+fname, "gotree %s fails: %s\n  document %q", strings.Join(rargs, " "), rd.status, libdoc)
+		o.Fail("cli:reformat:read-failed:"+rk, "gotree %s fails: %s\n  document %q", strings.Join(rargs, " "), rd.status, libdoc)
 		return
 	}
 	var lines []string
@@ -666,12 +702,12 @@ func checkReformatCLI(t *testing.T, o *Outcome, c *C13Case, kind, fname string, 
 		}
 	}
 	if len(lines) != len(expect) {
-		o.Fail("cli:reformat:read-count:"+fname, "gotree %s prints %d trees for a document of %d\n  document %q\n  output %q", strings.Join(rargs, " "), len(lines), len(expect), libdoc, rd.outs["OUT"])
+		o.Fail("cli:reformat:read-count:"+rk, "gotree %s prints %d trees for a document of %d\n  document %q\n  output %q", strings.Join(rargs, " "), len(lines), len(expect), libdoc, rd.outs["OUT"])
 		return
 	}
 	for i, ln := range lines {
 		if canonTree(ln) != expect[i] {
-			o.Fail("cli:reformat:read:"+fname, "gotree %s: tree %d differs from its source\n  want %s\n  got  %s\n  document %q", strings.Join(rargs, " "), i, expect[i], canonTree(ln), libdoc)
+			o.Fail("cli:reformat:read:"+rk, "gotree %s: tree %d differs from its source\n  want %s\n  got  %s\n  document %q", strings.Join(rargs, " "), i, expect[i], canonTree(ln), libdoc)
 			return
 		}
 	}
